@@ -3,6 +3,7 @@ import PenneModel.Skel
 import PenneModel.Scope.Labels
 import PenneModel.Place.Syntax
 import PenneModel.Scope.Vars
+import PenneModel.Lex.Model
 /-
   Model driver: one request per line on stdin (`OP<TAB>payload`), one answer per line on stdout.
   Only model files are imported (no Mathlib, no proof files), so this links as a native executable.
@@ -17,6 +18,31 @@ def bodyOf (payload : String) : Option Stmts :=
   match Sexp.parse payload with
   | some (.list (.atom "body" :: ss)) => Skel.stmtsOfSexp ss
   | _ => none
+
+def hexDigit (n : Nat) : Char := if n < 10 then Char.ofNat (48 + n) else Char.ofNat (87 + n)
+def hexByte (n : Nat) : String := String.ofList [hexDigit (n / 16), hexDigit (n % 16)]
+
+def tyName : Lex.Ty → String
+  | .void => "void" | .i8 => "i8" | .i16 => "i16" | .i32 => "i32" | .i64 => "i64" | .i128 => "i128"
+  | .u8 => "u8" | .u16 => "u16" | .u32 => "u32" | .u64 => "u64" | .u128 => "u128" | .usize => "usize"
+  | .char8 => "char8" | .bool => "bool"
+
+def showTok : Lex.Tok → String
+  | .sym s => "S" ++ String.ofList s
+  | .kw s => "K" ++ String.ofList s
+  | .ty t => "T" ++ tyName t
+  | .ident s => "I" ++ String.ofList s
+  | .builtin s => "B" ++ String.ofList s
+  | .dec n => "D" ++ toString n
+  | .bit n => "X" ++ toString n
+  | .suf n t => "F" ++ toString n ++ ":" ++ tyName t
+  | .chr b => "C" ++ toString b
+  | .bool b => if b then "L1" else "L0"
+  | .str bs => "Q" ++ String.join (bs.map hexByte)
+  | .err c => "E" ++ toString c
+
+def showLTok (t : Lex.LTok) : String :=
+  showTok t.tok ++ "@" ++ toString t.start ++ "-" ++ toString t.stop ++ "/" ++ toString t.line ++ ":" ++ toString t.col
 
 def handle (op payload : String) : String :=
   match op with
@@ -36,6 +62,10 @@ def handle (op payload : String) : String :=
       | some cs, some ps, some b =>
         "codes=" ++ showCodes (sortNat (Vars.goFunction cs ps b)) ++ " labels=" ++ showCodes (sortNat (Labels.goBody b))
       | _, _, _ => "bad-request"
+    | _ => "bad-request"
+  | "lex" =>
+    match Sexp.parse payload with
+    | some (.str cs) => " ".intercalate ((Lex.lex cs).map showLTok)
     | _ => "bad-request"
   | _ => "bad-op"
 
